@@ -1,2 +1,73 @@
--- driver stub for C09: replaced by the real line-protocol driver
-def main : IO Unit := pure ()
+import Bermuda.Model.Json
+import Bermuda.Model.Summarize
+import Bermuda.Spec.C09
+open Lean Bermuda
+
+def ruleEntryFromJson (j : Json) : Except String RuleEntry := do
+  let a ← j.getArr?
+  if a.size != 3 then throw "rule: want [name, kind, [keys]]"
+  return (← a[0]!.getStr?, ← a[1]!.getStr?, ← (← a[2]!.getArr?).toList.mapM (·.getStr?))
+
+def extraOf (j : Json) : Except String (List RuleEntry) :=
+  match j.getObjVal? "extra" with
+  | .ok v => do (← v.getArr?).toList.mapM ruleEntryFromJson
+  | .error _ => .ok []
+
+def tol : Rat := 1 / 1099511627776   -- 2^-40
+
+/-- the property speaks about the DEFAULT rules: a field whose rule the caller overrides through
+`summary_fns` is left to the model comparison -/
+def stillDefault (extra : List RuleEntry) (fields : List String) : List String :=
+  fields.filter fun f => ruleOf extra f == ruleOf [] f
+
+/-- Spec verdicts on an implementation output -/
+def specOf (extra : List RuleEntry) (prem : Bool) (t out : List Cell) : Json :=
+  let incr := smIsIncremental t
+  let summed := stillDefault extra (if prem || incr then Spec.C09.additiveFields else Spec.C09.lossFields)
+  Json.mkObj [
+    ("conserves", Spec.C09.conserves summed t out),
+    ("cellSums", Spec.C09.cellSums summed t out),
+    ("coordsOk", Spec.C09.coordsOk t out),
+    ("keysOk", Spec.C09.keysOk t out),
+    ("metaOk", Spec.C09.metaOk t out),
+    ("nonLossOk", (prem || incr) || Spec.C09.nonLossOk Generated.Summarize.nonLossMetrics t out),
+    ("ratioOk", Spec.C09.ratioOk tol "reported_loss"
+        (stillDefault extra (if prem || incr then Spec.C09.ratioFields else [])) t out)]
+
+def handle (j : Json) : Except String Json := do
+  let op ← (← j.getObjVal? "op").getStr?
+  let prem ← (← j.getObjVal? "prem").getBool?
+  let extra ← extraOf j
+  let cells ← cellsFromJson (← j.getObjVal? "cells")
+  match op with
+  | "summarize" =>
+    let model := summarize Transc.id extra cells prem
+    let spec ← match j.getObjVal? "impl" with
+      | .ok v => if v.isNull then pure Json.null else do
+          let out ← cellsFromJson v
+          pure (specOf extra prem cells out)
+      | .error _ => pure Json.null
+    return Json.mkObj [("model", exceptToJson cellsToJson model), ("spec", spec)]
+  | "cellValues" =>
+    -- `summarize_cell_values(cells, agg_fns, summarize_premium)` on an arbitrary list of cells; for the Spec the
+    -- cells are placed at one coordinate (the function never looks at coordinates)
+    let model := summarizeCellValues Transc.id extra cells prem
+    let spec ← match j.getObjVal? "impl" with
+      | .ok v => if v.isNull then pure Json.null else do
+          let vals ← dictFromJson Val.fromJson v
+          match cells with
+          | [] => pure Json.null
+          | c0 :: _ =>
+            let t := cells.map fun c => { c with kind := .cumulative, ps := c0.ps, pe := c0.pe, ev := c0.ev, prev := none }
+            let o : Cell := { c0 with kind := .cumulative, prev := none, values := vals }
+            let summed := stillDefault extra (if prem then Spec.C09.additiveFields else Spec.C09.lossFields)
+            pure (Json.mkObj [
+              ("cellSums", Spec.C09.cellSums summed t [o]),
+              ("keysOk", Spec.C09.keysOk t [o]),
+              ("nonLossOk", prem || Spec.C09.nonLossOk Generated.Summarize.nonLossMetrics t [o]),
+              ("ratioOk", Spec.C09.ratioOk tol "reported_loss" (stillDefault extra (if prem then Spec.C09.ratioFields else [])) t [o])])
+      | .error _ => pure Json.null
+    return Json.mkObj [("model", exceptToJson (dictToJson Val.toJson) model), ("spec", spec)]
+  | o => throw s!"unknown op {o}"
+
+def main : IO Unit := serve handle
